@@ -17,11 +17,19 @@ where
 	let scale_to_write = match decimal_mode {
 		DecimalMode::Regular(decimal) => {
 			// Try to scale it appropriately
+			let original = rust_decimal;
 			rust_decimal.rescale(decimal.scale);
 			if rust_decimal.scale() != decimal.scale {
 				return Err(SerError::new(
 					"Decimal number cannot be scaled to fit in schema scale \
 				with a 96 bit mantissa (number or scale too large)",
+				));
+			}
+			if rust_decimal != original {
+				// Scaling down rounds: what we would write would not be the number we were
+				// given
+				return Err(SerError::new(
+					"Decimal number has more fractional digits than the schema scale allows",
 				));
 			}
 			&[]
